@@ -1,5 +1,6 @@
 (* C08_Check.v — correspondence checker for C08 (soft delete). *)
 From Verif Require Export Base Sem Where_Model.
+From Verif Require Import Where_Render.
 
 Record case := mk_case {
   c_atoms : atom_table;
@@ -30,9 +31,17 @@ Definition model_tokens (c : case) : option (list tok) :=
   | None => None
   end.
 
+(* hypothesis of theorem c08_filter_is_conjunct, evaluated on the expressions of this case *)
+Definition theorem_applies (c : case) : bool :=
+  match build_chain (c_atoms c) (c_chain c) with
+  | Some exprs => ok_where (soft_delete_exprs (c_live c) (c_live c + 50) exprs)
+  | None => false
+  end.
+
 Definition model_agrees (c : case) : bool :=
   match model_tokens c, lex (c_atoms c) (o_where c) with
   | Some mt, Some ot =>
+    theorem_applies c &&
     list_eqb tok_eqb mt ot
     && match parse ot with
        | Some e => zlist_eqb (rows_where (c_rows c) (fun v => evE v e)) (o_find c)
